@@ -135,23 +135,52 @@ def run(ck: Check, repo: Repo) -> None:
     # ---- C05.1
     ecfg = CFG(eli.node)
     # the fitness vector: mean of the last eval_loop scores per individual, in population order
+    # the fitness vector: a list comprehension over the population, or an empty list filled by one append per member
+    fit_name = None
+    elt = None
+    it_src = None
+    tgt_name = None
+    site = eli.node
     lf = [n for n in ecfg.live_nodes() if n.kind == "stmt" and isinstance(n.ast, ast.Assign) and isinstance(n.ast.value, ast.ListComp)
           and "fitness" in ast.unparse(n.ast.value)]
-    ck.ob("C05.1", eli, eli.node, len(lf) == 1, "one fitness vector is computed", construct="fitness vector in _elitism")
-    if len(lf) != 1:
+    if len(lf) == 1:
+        comp = lf[0].ast.value
+        g = comp.generators[0]
+        fit_name, elt, it_src, tgt_name, site = dotted(lf[0].ast.targets[0]), comp.elt, g.iter, dotted(g.target), comp
+        plain = not g.ifs and len(comp.generators) == 1
+    else:
+        plain = False
+        for L_ in [n for n in ecfg.live_nodes() if n.kind == "for" and dotted(n.ast.iter) == "population"]:
+            apps_ = [c for c in calls_in(L_.ast) if last_attr(c) == "append" and "fitness" in ast.unparse(c)]
+            if len(apps_) == 1 and isinstance(apps_[0].func.value, ast.Name):
+                an = ecfg.node_of(apps_[0])
+                first = ecfg.node_of(L_.ast.body[0])
+                inits = [d for d in ecfg.defs_reaching(L_, apps_[0].func.value.id) if not any(x is d.stmt for x in ast.walk(L_.ast))]
+                if len(inits) == 1 and isinstance(ecfg.value_of_def(inits[0], apps_[0].func.value.id), ast.List) and first is not None and ecfg.postdominates(an, first):
+                    fit_name, it_src, tgt_name, site = apps_[0].func.value.id, L_.ast.iter, dotted(L_.ast.target), apps_[0]
+                    plain = not ecfg.guards_at(an)
+                    # inline single-use locals of the element expression
+                    elt = apps_[0].args[0]
+                    for _ in range(3):
+                        for nm in [x for x in ast.walk(elt) if isinstance(x, ast.Name) and isinstance(x.ctx, ast.Load)]:
+                            ds = [d for d in ecfg.defs_reaching(an, nm.id) if any(x is d.stmt for x in ast.walk(L_.ast)) and d.kind == "stmt"]
+                            if len(ds) == 1 and ecfg.value_of_def(ds[0], nm.id) is not None and nm.id != tgt_name:
+                                class _R(ast.NodeTransformer):
+                                    def visit_Name(self, node, _id=nm.id, _v=ecfg.value_of_def(ds[0], nm.id)):
+                                        return _v if node.id == _id and isinstance(node.ctx, ast.Load) else node
+                                import copy as _c
+                                elt = _R().visit(_c.deepcopy(elt))
+    ck.ob("C05.1", eli, site, fit_name is not None, "one score per member is collected into a fitness vector", construct="fitness vector in _elitism")
+    if fit_name is None:
         raise AnalysisError("_elitism: fitness vector not found")
-    comp = lf[0].ast.value
-    g = comp.generators[0]
-    ok = dotted(g.iter) == "population" and isinstance(g.target, ast.Name) and not g.ifs
-    ck.ob("C05.1", eli, comp, ok, "one score per member of the population, in population order")
-    elt = comp.elt
+    ok = dotted(it_src) == "population" and plain
+    ck.ob("C05.1", eli, site, ok, "one score per member of the population, in population order")
     okm = isinstance(elt, ast.Call) and call_name(elt) in ("np.mean", "numpy.mean") and len(elt.args) == 1
     sl = elt.args[0] if okm else None
-    oks = isinstance(sl, ast.Subscript) and dotted(sl.value) == f"{g.target.id}.fitness" and isinstance(sl.slice, ast.Slice) and sl.slice.upper is None \
+    oks = isinstance(sl, ast.Subscript) and dotted(sl.value) == f"{tgt_name}.fitness" and isinstance(sl.slice, ast.Slice) and sl.slice.upper is None \
         and sl.slice.step is None and isinstance(sl.slice.lower, ast.UnaryOp) and isinstance(sl.slice.lower.op, ast.USub) and dotted(sl.slice.lower.operand) == "self.eval_loop"
     ck.ob("C05.1", eli, elt, okm and oks, "the score is the mean of the member's last eval_loop fitness entries (suffix slice [-eval_loop:])",
-          detail=f"element: {short(elt, 80)}")
-    fit_name = dotted(lf[0].ast.targets[0])
+          detail=f"element: {short(elt, 100)} — a start index computed as len - eval_loop goes negative for histories shorter than the window and wraps around")
     ev = OrdEval(ecfg, {fit_name: Ord("vals", 1, over="population")})
     rets = [n for n in ecfg.live_nodes() if n.kind == "stmt" and isinstance(n.ast, ast.Return)]
     ck.ob("C05.1", eli, eli.node, len(rets) == 1 and isinstance(rets[0].ast.value, ast.Tuple) and len(rets[0].ast.value.elts) == 3, "_elitism returns (elite, rank, max_id)",
@@ -351,6 +380,10 @@ VARIANTS = [
     ("elite-neg-argsort-ok", _TF, "model = population[int(np.argsort(rank)[-1])]", "model = population[int(np.argsort(-rank)[0])]", "silent", None),
     ("mean-of-prefix", _TF, "np.mean(indi.fitness[-self.eval_loop :])", "np.mean(indi.fitness[: self.eval_loop])", "fire", "C05.1"),
     ("mean-of-all", _TF, "np.mean(indi.fitness[-self.eval_loop :])", "np.mean(indi.fitness)", "fire", "C05.1"),
+    ("loop-form-ok", _TF, "        last_fitness = [np.mean(indi.fitness[-self.eval_loop :]) for indi in population]\n",
+     "        last_fitness = []\n        for indi in population:\n            recent = indi.fitness[-self.eval_loop :]\n            last_fitness.append(np.mean(recent))\n", "silent", None),
+    ("loop-form-len-minus", _TF, "        last_fitness = [np.mean(indi.fitness[-self.eval_loop :]) for indi in population]\n",
+     "        last_fitness = []\n        for indi in population:\n            start = len(indi.fitness) - self.eval_loop\n            last_fitness.append(np.mean(indi.fitness[start:]))\n", "fire", "C05.1"),
     ("last-score-only", _TF, "np.mean(indi.fitness[-self.eval_loop :])", "indi.fitness[-1]", "fire", "C05.1"),
     ("rank-is-permutation", _TF, "rank = np.argsort(last_fitness).argsort()", "rank = np.argsort(last_fitness)", "fire", "C05"),
     ("tournament-argmin", _TF, "winner = selection[np.argmax(selection_values)]", "winner = selection[np.argmin(selection_values)]", "fire", "C05.2"),
